@@ -138,7 +138,7 @@ Fixpoint stream_run (fuel : nat) (c : chunker) (start : N) (buf rest : list N) (
     end
   end.
 
-Definition stream_fuel (data : list N) (evs : list ev) : nat := 2 * length data + length evs + 4.
+Definition stream_fuel (data : list N) (evs : list ev) : nat := 3 * length data + length evs + 4.
 
 Definition chunk_stream (cfg : config) (data : list N) (evs : list ev) : outcome (list (N * N)) :=
   do c <- new_chunker cfg;
